@@ -772,6 +772,35 @@ def leafset_grid_cases():
             out.append({"mode": "hist", "ntaxa": 6, "ops": ops})
     return out
 
+
+def zero_weight_grid_cases():
+    """run first on every run: weighted samples with weight-0 trees - a single one, several, a whole sub-collection, a whole
+    file of one worker - merged by every operation in every arrival order (the denominator of every frequency is the sum of the
+    weights unless that sum is 0)"""
+    out = []
+    for rooted in (True, False):
+        a = spec_of([[[0, 1], [2, 3]], 4], rooted, Fraction(3, 2))
+        b = spec_of([[[0, 2], [1, 3]], 4], rooted, Fraction(1))
+        c = spec_of([[0, 1], [[2, 3], 4]], rooted)
+        z1 = dict(spec_of([[[0, 3], [1, 2]], 4], rooted), weight="0")
+        z2 = dict(a, weight="0")
+        for sample, parts in (([a, z1, b], [[0, 2], [1], []]), ([z1, z2, a, b, c], [[2, 3, 4], [0, 1], []]),
+                              ([z1, a, z2, b], [[0, 1], [2, 3], []]), ([z1, z2], [[0], [1], []])):
+            for op in ("upd", "ext", "iadd"):
+                for arrival in ([0, 1, 2], [1, 0, 2], [2, 1, 0]):
+                    out.append({"mode": "hist", "ntaxa": 5, "ops": partition_history(sample, [1, 1, 1], None, parts, arrival, op, None)})
+            ops = [["new", None, 1, 1, 1], ["new", None, 1, 1, 1]]
+            ops += [["add", 0, "add_tree", sample[j]] for j in parts[0]] + [["add", 1, "append", sample[j]] for j in parts[1]]
+            ops += [["plus", 0, 1], ["plus", 1, 0]]
+            out.append({"mode": "hist", "ntaxa": 5, "ops": ops})
+            out.append({"mode": "hist", "ntaxa": 5, "ops": [["new", None, 1, 1, 1]] + [["add", 0, "add_tree", t] for t in reversed(sample)]})
+        ua, ub, uz = dict(a, rooted=None), dict(b, rooted=None), dict(z1, rooted=None)
+        for files, nw, assignment, arrival in (([[ua, ub], [uz, dict(uz)]], 3, [0, 1], [0, 1, 2]), ([[uz], [ua], [uz, ub]], 3, [2, 0, 1], [2, 1, 0]),
+                                               ([[uz, uz], [ub]], 2, [0, 1], [1, 0])):
+            out.append({"mode": "sched", "ntaxa": 5, "files": files, "rooted": rooted, "token": None, "flags": [1, 1, 1], "nworkers": nw,
+                        "assignment": assignment, "arrival": arrival})
+    return out
+
 # ======================================================================================= histories
 def err_name(e):
     n = type(e).__name__
@@ -1345,7 +1374,15 @@ def gen_history(rng, max_taxa=7, max_ops=14):
 
     reg_root = []
 
+    zero_regs = set()        # collections that receive weight-0 trees only: their own weight sum stays 0
+
     def new_tree(d):
+        t = new_tree0(d)
+        if weights_mode and d in zero_regs:
+            t = dict(t, weight="0")
+        return t
+
+    def new_tree0(d):
         # with several rooting states around, each array is mostly filled with trees of "its" state, so that
         # merges of two non-empty arrays of different rooting (to be rejected) are actually reached
         r = reg_root[d] if rng.random() < 0.85 else rng.choice(rootings)
@@ -1357,7 +1394,7 @@ def gen_history(rng, max_taxa=7, max_ops=14):
             bits = rng.sample(bits_all, rng.randint(3, ntaxa))
         w = None
         if weights_mode and rng.random() < 0.7:
-            w = Fraction(rng.randint(1, 8), rng.choice([1, 2, 4]))
+            w = Fraction(rng.randint(1, 8), rng.choice([1, 2, 4])) if rng.random() < 0.8 else Fraction(0)
         s = gen_spec(rng, bits, r, ultrametric=ages_mode or rng.random() < 0.1, none_rate=rng.choice([0.0, 0.0, 0.3, 1.0]),
                      weight=w, p_poly=rng.choice([0.0, 0.25, 0.6]), basal2=rng.random() < 0.4)
         pool.append(s)
@@ -1381,6 +1418,8 @@ def gen_history(rng, max_taxa=7, max_ops=14):
         return rng.choice([True, False])
 
     nreg = rng.randint(2, 4)
+    if weights_mode and rng.random() < 0.35:
+        zero_regs.add(rng.randrange(nreg))
     ops = [["new", decl(), *flags(), *prec()] for _ in range(nreg)]
     reg_root.extend(rng.choice(rootings) for _ in range(nreg))
     nops = rng.randint(3, max_ops)
@@ -2046,6 +2085,12 @@ def gen_sched_files(rng, nfiles, max_taxa=6, max_trees=3, allow_empty_file=False
             pool.append(s)
             f.append(s)
         files.append(f)
+    if weights and files and rng.random() < 0.4:
+        if rng.random() < 0.6:
+            k = rng.randrange(len(files))
+            files[k] = [dict(sp, weight="0") for sp in files[k]]       # the worker reading only this file posts a weight sum of 0
+        else:
+            files = [[dict(sp, weight="0") if rng.random() < 0.3 else sp for sp in f] for f in files]
     mode = rng.random()
     if mode < 0.5:
         rooted, token = None, None
@@ -2200,6 +2245,9 @@ def run(ctx):
     for case in leafset_grid_cases():
         run_hist_case(ctx, dendropy, case, pending, "leafset-grid")
     flush(ctx, pending)
+    for case in zero_weight_grid_cases():
+        run_any(ctx, dendropy, case, pending)
+    flush(ctx, pending)
     # ---- random histories
     t_hist = ctx.pick(19, 200)
     n = 0
@@ -2297,6 +2345,20 @@ def gen_partition_case(rng, ntrees=None, nparts=None):
     parts = [[] for _ in range(nparts)]
     for j in range(ntrees):
         parts[rng.randrange(nparts)].append(j)
+    if wts and rng.random() < 0.5:
+        # weight-0 trees: one whole sub-collection (its own weight sum is 0), or single trees here and there
+        zp = rng.randrange(nparts)
+        whole = rng.random() < 0.6
+        specs = list(specs)
+        for k, part in enumerate(parts):
+            for j in part:
+                if (whole and k == zp) or (not whole and rng.random() < 0.3):
+                    specs[j] = dict(specs[j], weight="0")
+        # (trees shared between parts by identity keep one weight: copy them)
+        seen = {}
+        for k, part in enumerate(parts):
+            for j in part:
+                seen.setdefault(j, k)
     arrival = rng.sample(range(nparts), nparts)
     decl = rng.choice([None, None, r])
     precs = vias = None
@@ -2483,8 +2545,8 @@ def search(ctx, broken):
     dendropy = __import__("dendropy")
     pending = []
     before = len(ctx.failures)
-    for case in leafset_grid_cases() + fresh_settings_cases() + decision_table_cases() + burnin_cases():
-        run_hist_case(ctx, dendropy, case, pending, "search")
+    for case in zero_weight_grid_cases() + leafset_grid_cases() + fresh_settings_cases() + decision_table_cases() + burnin_cases():
+        run_any(ctx, dendropy, case, pending)
         if len(pending) >= 200:
             flush(ctx, pending)
     flush(ctx, pending)
